@@ -327,7 +327,16 @@ func (fx *FnCtx) contractCallWithNames(st *State, pc *Term, fc *FuncContract, na
 			_ = n
 			fx.frameCheckItem(st, pc, p, it)
 		case PElem:
-			if it.Lo == nil {
+			if it.Arr == nil {
+				// arrays(T) of the callee needs arrays(T) in the caller's frame
+				ok := False
+				for _, ci := range fx.root.frame {
+					if ci.Kind == PElem && ci.Arr == nil && types.Identical(ci.Root, it.Root) {
+						ok = True
+					}
+				}
+				fx.safety("frame", pc, ok, "callee may modify every array of "+it.Root.String())
+			} else if it.Lo == nil {
 				fx.frameCheck(st, pc, &PtrInfo{Kind: PElem, Arr: it.Arr, Root: it.Root, Typ: it.Root})
 			} else {
 				fx.frameCheckRange(st, pc, it.Root, it.Arr, it.Lo, it.Hi)
@@ -379,9 +388,40 @@ func (fx *FnCtx) contractCallWithNames(st *State, pc *Term, fc *FuncContract, na
 		}
 	}
 	for _, c := range fc.Ensures {
+		if fx.root.boundedK > 0 && hasUnboundedQuant(c.Expr) {
+			// bounded instance search looks for concrete failing runs (which are replayed on the real
+			// code): a callee postcondition that cannot be made quantifier-free is left out there
+			continue
+		}
 		fx.assume(Implies(pc, fx.evalBool(post, c.Expr)))
 	}
 	return res
+}
+
+// hasUnboundedQuant: the expression contains a quantifier over a whole type.
+func hasUnboundedQuant(e SpecExpr) bool {
+	switch x := e.(type) {
+	case *SQuant:
+		if x.Lo == nil {
+			return true
+		}
+		return hasUnboundedQuant(x.Lo) || hasUnboundedQuant(x.Hi) || hasUnboundedQuant(x.Body)
+	case *SBin:
+		return hasUnboundedQuant(x.L) || hasUnboundedQuant(x.R)
+	case *SUn:
+		return hasUnboundedQuant(x.X)
+	case *SCall:
+		for _, a := range x.Args {
+			if hasUnboundedQuant(a) {
+				return true
+			}
+		}
+	case *SIndex:
+		return hasUnboundedQuant(x.X) || hasUnboundedQuant(x.I)
+	case *SField:
+		return hasUnboundedQuant(x.X)
+	}
+	return false
 }
 
 func (fx *FnCtx) frameCheckItem(st *State, pc *Term, p *PtrInfo, it FrameItem) {
